@@ -10,6 +10,9 @@ ops (all byte strings in hex, `-` = empty):
          flags ⊆ "raocn" or "-": r = may keep the announcement tag, a = anonymous board, o = open board (ALLPOST copy),
          c = credited, n = not permitted (the request is refused before anything is written)
          lines = "." (none) or comma separated hex lines
+  load   <session> <userID>                    keep a freshly loaded user record under a session name
+  postas <session> <board> <dirBoard> <flags> <ip> <from> <class> <title> <lines>
+                                               ptt.NewPost with the kept (possibly stale) record; prints its NumPosts as cnp=
   postfail <limit> <the nine tokens of post>   the same request while article files cannot grow beyond <limit> bytes
   defuse <line>      ptt.StripANSIMoveCmd
   trim   <line>      cmsys.Trim
@@ -43,6 +46,7 @@ def parseNat? (s : String) : Option Nat :=
 structure DSt where
   st : St
   utab : List (List Nat × Nat × List Nat)
+  sessions : List Session := []
 
 def parseReset (toks : List String) : Option DSt :=
   toks.foldlM (init := ({ st := { boards := [], users := [], postLog := C05.FS.absent }, utab := [] } : DSt)) fun d t =>
@@ -59,7 +63,7 @@ def parseReset (toks : List String) : Option DSt :=
         let nick ← parseHex nick
         let np ← parseNat? np
         if (s.users.find? (·.1 == id)).isSome ∨ id.length ≠ ID_SZ then none
-        else pure { st := { s with users := s.users ++ [(id, np)] }, utab := d.utab ++ [(id, uid, nick)] }
+        else pure { d with st := { s with users := s.users ++ [(id, np)] }, utab := d.utab ++ [(id, uid, nick)] }
     | _ => none
 
 def showCount (s : St) (n : List Nat) : String :=
@@ -125,6 +129,29 @@ def parseReq (d : DSt) (toks : List String) : Option (Req × Bool) :=
           fl.contains 'n')
   | _ => none
 
+/-- run a post-like session operation and print its canonical line; `sess` ≠ "" adds the caller's copy. -/
+def runPostOp (d : DSt) (q : Req) (refused : Bool) (op : SOp) (sess : String) : Option DSt × String :=
+  let s := d.st
+  let cnp (ss : List Session) : String :=
+    if sess = "" then "" else
+      match parseHex sess with
+      | some n => " cnp=" ++ ((findSession ss n).map (fun x => toString x.numPosts)).getD "-"
+      | none => ""
+  if refused then (some d, "refused " ++ stateLine s q ++ cnp d.sessions)
+  else
+    match stepS ⟨d.st, d.sessions⟩ op with
+    | .error e => (some d, toString e ++ " " ++ stateLine s q ++ cnp d.sessions)
+    | .ok (s', o) =>
+      let d' := { d with st := s'.st, sessions := s'.sessions }
+      match o with
+      | some .badBoardID => (some d', "bad-board-id " ++ stateLine s'.st q ++ cnp s'.sessions)
+      | some .noBoard => (some d', "no-board " ++ stateLine s'.st q ++ cnp s'.sessions)
+      | some (.posted p) =>
+        let xrec := if q.isOpen ∧ (findBoard s.boards ALLPOST).isSome then toHex p.xrecord else "-"
+        (some d', s!"ok st={toHex (cstr (p.title.take TITLE_SZ))} rec={toHex p.record} file={toHex p.content} log={toHex p.logRec} xrec={xrec} "
+                    ++ stateLine s'.st q ++ cnp s'.sessions)
+      | none => (some d', "bad-op")
+
 def stepC09 (st : Option DSt) (ws : List String) : Option DSt × String :=
   match ws with
   | ["consts"] => (st, constsLine)
@@ -144,20 +171,34 @@ def stepC09 (st : Option DSt) (ws : List String) : Option DSt × String :=
     match st with
     | none => (st, "bad-op")
     | some d =>
-      let s := d.st
       match parseReq d [board, dirBoard, user, flags, ip, frm, cls, title, lines] with
       | none => (st, "bad-op")
-      | some (q, refused) =>
-        if refused then (st, "refused " ++ stateLine s q)
-        else
-          match createArticle s q phEnv with
-          | .error e => (st, toString e ++ " " ++ stateLine s q)
-          | .ok (s', .badBoardID) => (some { d with st := s' }, "bad-board-id " ++ stateLine s' q)
-          | .ok (s', .noBoard) => (some { d with st := s' }, "no-board " ++ stateLine s' q)
-          | .ok (s', .posted p) =>
-            let xrec := if q.isOpen ∧ (findBoard s.boards ALLPOST).isSome then toHex p.xrecord else "-"
-            (some { d with st := s' }, s!"ok st={toHex (cstr (p.title.take TITLE_SZ))} rec={toHex p.record} file={toHex p.content} log={toHex p.logRec} xrec={xrec} "
-                        ++ stateLine s' q)
+      | some (q, refused) => runPostOp d q refused (.create q phEnv) ""
+  | ["load", sess, user] =>
+    match st with
+    | none => (st, "bad-op")
+    | some d =>
+      match parseHex sess, parseHex user with
+      | some sess, some user =>
+        if (d.utab.find? (·.1 == user)).isNone then (st, "bad-op")
+        else match stepS ⟨d.st, d.sessions⟩ (.load sess user) with
+          | .ok (s', _) => (some { d with st := s'.st, sessions := s'.sessions },
+                            "ok np=" ++ ((findSession s'.sessions sess).map (fun x => toString x.numPosts)).getD "-")
+          | .error e => (st, toString e)
+      | _, _ => (st, "bad-op")
+  | ["postas", sess, board, dirBoard, flags, ip, frm, cls, title, lines] =>
+    match st with
+    | none => (st, "bad-op")
+    | some d =>
+      match parseHex sess with
+      | none => (st, "bad-op")
+      | some sess =>
+        match findSession d.sessions sess with
+        | none => (st, "bad-op")
+        | some x =>
+          match parseReq d [board, dirBoard, toHex x.userID, flags, ip, frm, cls, title, lines] with
+          | none => (st, "bad-op")
+          | some (q, refused) => runPostOp d q refused (.postAs sess q phEnv) (toHex sess)
   | ["postfail", lim, board, dirBoard, user, flags, ip, frm, cls, title, lines] =>
     match st, parseNat? lim with
     | some d, some _ =>
